@@ -173,6 +173,9 @@ def check_c01(tier, seed):
     core.build_driver()
     quick = tier == "quick"
     cases = gen(rep, ALL_SLOTS, 1, [1, 2] if quick else [1, 2, 3], "c01_mc", workers=6 if quick else 12)
+    # the datum expressions once more under arguments beyond 64 bits on either side (-2^64 - 1, 2^127 - 1): integers
+    # that a datum carries as big numbers mean what the template says too
+    cases += gen(rep, ["out_datum"], 1, [114, 115], "c01_wide", workers=6)
     rep.exhaustive = True
     rng = random.Random(seed)
     pairs = pairs_of(cases, 400 if quick else 30000, rng)
